@@ -387,6 +387,8 @@ def parcor(fir_filt):
   for m in xrange(len(fir_filt.numerator) - 1, 0, -1):
     k = fir_filt.numpoly[m]
     yield k
+    if not isinstance(k, Stream) and k == 0: # Nothing to step down. A missing
+      continue # term is a float zero: going on would turn exact into floats
     zB = fir_filt(1 / z) * z ** -m
     try:
       fir_filt = (fir_filt - k * zB) / (1 - k ** 2)
